@@ -1,2 +1,268 @@
 import RegressModel
-def main : IO Unit := IO.println "ok"
+/-!
+# Line-protocol driver
+
+Reads one request per line on stdin, answers one line per request on stdout, by *running the model*.
+The harness (`/verif/harness`) sends the same requests to the real implementation; the two reply
+streams are diffed by `verif.py`.  Anything the driver cannot parse is answered `bad-request`
+(never a default value).
+-/
+open Regress
+
+namespace Drv
+
+def hexVal (c : Char) : Option Nat :=
+  if '0' ≤ c ∧ c ≤ '9' then some (c.toNat - '0'.toNat)
+  else if 'a' ≤ c ∧ c ≤ 'f' then some (c.toNat - 'a'.toNat + 10)
+  else if 'A' ≤ c ∧ c ≤ 'F' then some (c.toNat - 'A'.toNat + 10)
+  else none
+
+def parseHex (s : String) : Option Nat :=
+  if s.isEmpty then none
+  else s.toList.foldl (fun acc c => match acc, hexVal c with
+    | some a, some v => some (a * 16 + v)
+    | _, _ => none) (some 0)
+
+def toHex (n : Nat) : String := String.ofList (Nat.toDigits 16 n)
+
+def allSome {α} : List (Option α) → Option (List α)
+  | [] => some []
+  | none :: _ => none
+  | some x :: xs => (allSome xs).map (x :: ·)
+
+/-- `a-b,c-d` (hex) or `-`. -/
+def parseIvs (s : String) : Option (List (Nat × Nat)) :=
+  if s == "-" then some []
+  else allSome <| (s.splitOn ",").map fun p =>
+    match p.splitOn "-" with
+    | [a, b] => match parseHex a, parseHex b with
+      | some x, some y => some (x, y)
+      | _, _ => none
+    | _ => none
+
+def showIvs (l : List (Nat × Nat)) : String :=
+  if l.isEmpty then "-" else ",".intercalate (l.map fun iv => s!"{toHex iv.1}-{toHex iv.2}")
+
+def toCps (l : List (Nat × Nat)) : CPS.IvList := l.map fun iv => { first := iv.1, last := iv.2 }
+def ofCps (l : CPS.IvList) : List (Nat × Nat) := l.map fun iv => (iv.first, iv.last)
+
+/-- code points `hex.hex…` or `-`. -/
+def parseCps (s : String) : Option (List Nat) :=
+  if s == "-" then some [] else allSome ((s.splitOn ".").map parseHex)
+
+/-- bytes as two-digit hex, concatenated, or `-`. -/
+def parseBytes (s : String) : Option (List Nat) :=
+  if s == "-" then some []
+  else
+    let rec go : List Char → Option (List Nat)
+      | [] => some []
+      | [_] => none
+      | a :: b :: rest => match hexVal a, hexVal b, go rest with
+        | some x, some y, some r => some ((x * 16 + y) :: r)
+        | _, _, _ => none
+    go s.toList
+
+def showBytes (l : List Nat) : String :=
+  if l.isEmpty then "-" else String.ofList (l.flatMap fun b =>
+    let d := Nat.toDigits 16 b
+    if d.length == 1 then '0' :: d else d)
+
+/-- `a-b` or `_`. -/
+def parseRange (s : String) : Option (Option (Nat × Nat)) :=
+  if s == "_" then some none
+  else match s.splitOn "-" with
+    | [a, b] => match a.toNat?, b.toNat? with
+      | some x, some y => some (some (x, y))
+      | _, _ => none
+    | _ => none
+
+def showRange : Option (Nat × Nat) → String
+  | none => "_"
+  | some (a, b) => s!"{a}-{b}"
+
+/-- `[c;c;…]` -/
+def parseCaps (s : String) : Option Api.Caps :=
+  if !(s.startsWith "[" && s.endsWith "]") then none
+  else
+    let inner := (s.drop 1).dropEnd 1
+    if inner.isEmpty then some [] else allSome ((inner.toString.splitOn ";").map parseRange)
+
+def showCaps (c : Api.Caps) : String := "[" ++ ";".intercalate (c.map showRange) ++ "]"
+
+def showMatch (m : Api.MatchR) : String := s!"{m.range.1}-{m.range.2}{showCaps m.captures}"
+
+/-- `s-e[caps]` -/
+def parseMatch (names : List (List Nat)) (s : String) : Option Api.MatchR :=
+  match s.splitOn "[" with
+  | [r, c] => match parseRange r, parseCaps ("[" ++ c) with
+    | some (some rg), some caps => some { range := rg, captures := caps, names := names }
+    | _, _ => none
+  | _ => none
+
+/-- names token of the program dump: `-` or `n,n,…` with `n` = `-` or `hex.hex` -/
+def parseNames (s : String) : Option (List (List Nat)) :=
+  if s == "-" then some [] else allSome ((s.splitOn ",").map parseCps)
+
+def showName (n : List Nat) : String :=
+  if n.isEmpty then "-" else ".".intercalate (n.map toHex)
+
+-- ---------------------------------------------------------------- ops
+
+def opProp (args : List String) : String :=
+  match args with
+  | [k, nm] =>
+    match k.toNat?, parseHex nm with
+    | some kind, some name =>
+      match Props.resolve kind name with
+      | none => "none"
+      | some (p, l) => "cc " ++ showIvs (Packed.decode l p)
+    | _, _ => "bad-request"
+  | _ => "bad-request"
+
+def opCps (args : List String) : String :=
+  match args with
+  | ["add", s, iv] => match parseIvs s, parseIvs iv with
+    | some s, some [iv] => showIvs (ofCps (CPS.add (toCps s) { first := iv.1, last := iv.2 }))
+    | _, _ => "bad-request"
+  | ["addset", s, t] => match parseIvs s, parseIvs t with
+    | some s, some t => showIvs (ofCps (CPS.addSet (toCps s) (toCps t)))
+    | _, _ => "bad-request"
+  | ["inv", s] => match parseIvs s with
+    | some s => showIvs (ofCps (CPS.inverted (toCps s)))
+    | _ => "bad-request"
+  | ["invcount", s] => match parseIvs s with
+    | some s => toString (CPS.invertedIntervalCount (toCps s))
+    | _ => "bad-request"
+  | ["remove", s, t] => match parseIvs s, parseIvs t with
+    | some s, some t => showIvs (ofCps (CPS.remove (toCps s) (toCps t)))
+    | _, _ => "bad-request"
+  | ["inter", s, t] => match parseIvs s, parseIvs t with
+    | some s, some t => showIvs (ofCps (CPS.intersect (toCps s) (toCps t)))
+    | _, _ => "bad-request"
+  | ["contains", s, c] => match parseIvs s, parseHex c with
+    | some s, some c =>
+      -- the faithful binary search must agree with the linear model (and never index out of bounds)
+      match CPS.containsBin (toCps s) c with
+      | some b => if b == CPS.contains (toCps s) c then (if b then "1" else "0") else "model-inconsistent"
+      | none => "error"
+    | _, _ => "bad-request"
+  | _ => "bad-request"
+
+/-- attempt table entry `p:e:[caps]` or `p:x` -/
+def parseAttempt (s : String) : Option (Nat × Option (Nat × Api.Caps)) :=
+  match s.splitOn ":" with
+  | [p, "x"] => p.toNat?.map fun p => (p, none)
+  | [p, e, c] => match p.toNat?, e.toNat?, parseCaps c with
+    | some p, some e, some c => some (p, some (e, c))
+    | _, _, _ => none
+  | _ => none
+
+def opIter (args : List String) : String :=
+  match args with
+  | [kind, start, len, bounds, att] =>
+    let k : Option Api.Kind := match kind with
+      | "prefix" => some .btPrefix
+      | "anchored" => some .btAnchored
+      | "pike" => some (.pike false)
+      | "pikeanch" => some (.pike true)
+      | _ => none
+    match k, start.toNat?, len.toNat?, allSome ((bounds.splitOn ",").map String.toNat?),
+          allSome ((att.splitOn ",").map parseAttempt) with
+    | some k, some start, some len, some bounds, some att =>
+      let env : Api.SearchEnv :=
+        { len := len
+          attempt := fun p => match att.find? (·.1 == p) with
+            | some (_, r) => r
+            | none => none
+          nextRightPos := fun p => if p ≥ len then none else bounds.find? (· > p)
+          findBytes := some }
+      -- `find_from` with a start that is not a boundary panics; the harness only sends boundaries
+      let it0 := Api.Matches.new env start
+      let rec drain (fuel : Nat) (it : Api.Matches) (acc : List Api.MatchR) : List Api.MatchR × Api.Matches :=
+        match fuel with
+        | 0 => (acc.reverse, it)
+        | f+1 => match it.next env k with
+          | (none, it') => (acc.reverse, it')
+          | (some m, it') => drain f it' (m :: acc)
+      let (ms, it1) := drain (len + 3) it0 []
+      let (r1, it2) := it1.next env k
+      let (r2, it3) := it2.next env k
+      let (r3, _) := it3.next env k
+      let sh (r : Option Api.MatchR) := if r.isSome then "some" else "none"
+      " ".intercalate (ms.map showMatch) ++ s!" | {sh r1} {sh r2} {sh r3}"
+    | _, _, _, _, _ => "bad-request"
+  | _ => "bad-request"
+
+def opAccess (args : List String) : String :=
+  match args with
+  | [names, range, caps, qs] =>
+    match parseNames names, parseRange range, parseCaps caps, allSome ((qs.splitOn ",").map parseCps) with
+    | some names, some (some rg), some caps, some qs =>
+      let m : Api.MatchR := { range := rg, captures := caps, names := names }
+      let g := ",".intercalate ((List.range (caps.length + 2)).map fun i => showRange (m.group i))
+      -- groups() with the size hint observed before each next()
+      let rec gs (fuel : Nat) (it : Api.Groups) (acc : List String) : List String :=
+        match fuel with
+        | 0 => acc.reverse
+        | f+1 => match it.next m with
+          | (none, _) => acc.reverse
+          | (some x, it') => gs f it' (s!"{showRange x}/{it.sizeHint}" :: acc)
+      let gsS := ",".intercalate (gs (caps.length + 3) (Api.Groups.new m) [])
+      let ng := ",".intercalate (qs.map fun q => showRange (m.namedGroup q))
+      match m.namedGroups with
+      | .error () => "error"
+      | .ok l =>
+        let ngs := if l.isEmpty then "-" else ",".intercalate (l.map fun p => s!"{showName p.1}={showRange p.2}")
+        s!"g:{g} gs:{gsS} ng:{ng} ngs:{ngs}"
+    | _, _, _, _ => "bad-request"
+  | _ => "bad-request"
+
+def opReplace (args : List String) : String :=
+  match args with
+  | [kind, names, text, ms, tmpl] =>
+    match parseNames names, parseBytes text,
+          (if ms == "-" then some [] else
+            match parseNames names with
+            | some nm => allSome ((ms.splitOn ",").map (parseMatch nm))
+            | none => none),
+          parseCps tmpl with
+    | some _, some text, some ms, some tmpl =>
+      let f (m : Api.MatchR) : List Nat := [0x3C] ++ Api.slice text m.range.1 m.range.2 ++ [0x3E]
+      match kind with
+      | "one" => showBytes (Api.replace text ms tmpl)
+      | "all" => showBytes (Api.replaceAll text ms tmpl)
+      | "onewith" => showBytes (Api.replaceWith text ms f)
+      | "allwith" => showBytes (Api.replaceAllWith text ms f)
+      | _ => "bad-request"
+    | _, _, _, _ => "bad-request"
+  | _ => "bad-request"
+
+def opEscape (args : List String) : String :=
+  match args with
+  | [s] => match parseCps s with
+    | some cps => showBytes (Api.escape cps)
+    | none => "bad-request"
+  | _ => "bad-request"
+
+def answer (line : String) : String :=
+  match line.trimAscii.toString.splitOn " " with
+  | "prop" :: args => opProp args
+  | "cps" :: args => opCps args
+  | "iter" :: args => opIter args
+  | "access" :: args => opAccess args
+  | "replace" :: args => opReplace args
+  | "escape" :: args => opEscape args
+  | _ => "bad-request"
+
+end Drv
+
+partial def loop (h : IO.FS.Stream) (out : IO.FS.Stream) : IO Unit := do
+  let line ← h.getLine
+  if line.isEmpty then return ()
+  out.putStrLn (Drv.answer line)
+  loop h out
+
+def main : IO Unit := do
+  let stdin ← IO.getStdin
+  let stdout ← IO.getStdout
+  loop stdin stdout
